@@ -17,6 +17,7 @@
      c20_fuzzy_search_no_panic     fuzzy_search_limited (any key, candidate list, threshold) returns
      c20_fuzzy_search_candidate    ... and a suggestion is one of the candidates (or the fold's initial "")
      c20_wildcard_no_panic         Pattern::wildcard_match: pattern[j], text[i], pattern_len - 1 never panic
+     c20_wildcard_refines          ... and the index-level loop computes the declarative matcher `wildcard` of C02
      c20_ip_in_range_no_panic      IPAddr::is_in_range on parsed addresses: PREFIX_MAX_LEN - prefix cannot underflow,
                                    and the checked code computes C07's ip_is_in_range
      c20_ip_prefix_bound           the parser establishes prefix <= width (the invariant the subtraction relies on)
@@ -26,7 +27,7 @@
                                    arguments (finding F-b), and the repaired code agrees with it elsewhere        *)
 From Coq Require Import List ZArith NArith Bool String.
 Import ListNotations.
-From Cedar Require Import NoPanic NoPanicProofs.
+From Cedar Require Import NoPanic NoPanicProofs NoPanicLike.
 
 Theorem c20_levenshtein_no_panic : forall w1 w2 : str, exists n, levenshtein w1 w2 = POk n.
 Proof. exact levenshtein_no_panic. Qed.
@@ -45,6 +46,14 @@ Print Assumptions c20_fuzzy_search_candidate.
 Theorem c20_wildcard_no_panic : forall (pat : pattern) (text : str), exists o, wildcard_indexed pat text = POk o.
 Proof. exact wildcard_indexed_no_panic. Qed.
 Print Assumptions c20_wildcard_no_panic.
+
+(* ... and it computes the declarative matcher of C02 (`wildcard p s = true <-> Matches p s`, c02_like): the
+   usize-index code (i, j, star_idx, tmp_idx) refines the suffix-level loop of Like.v step by step, never
+   exhausting the fuel derived from LikeProofs' termination measure *)
+Theorem c20_wildcard_refines : forall (pat : pattern) (text : str),
+  wildcard_indexed pat text = POk (Some (wildcard pat text)).
+Proof. exact wildcard_indexed_refines. Qed.
+Print Assumptions c20_wildcard_refines.
 
 Theorem c20_ip_in_range_no_panic : forall s1 s2 : str,
   ip_in_range_strs s1 s2 =
